@@ -262,6 +262,14 @@ func (o *object) hasInstance(of Value) bool {
 		// We should not have a hasInstance method
 		panic(o.runtime.panicTypeError("Object.hasInstance not callable"))
 	}
+	// 15.3.4.5.3: a bound function answers with its target's [[HasInstance]].
+	for {
+		bound, ok := o.value.(bindFunctionObject)
+		if !ok {
+			break
+		}
+		o = bound.target
+	}
 	if !of.IsObject() {
 		return false
 	}
